@@ -826,6 +826,70 @@ def rule_i(ctx: Context, R: Reporter, base: ClassInfo, subs: List[ClassInfo]):
     R.floor("C03.i", "kernel classes scanned", n, 3)
 
 
+def rule_j(ctx: Context, R: Reporter, base: ClassInfo, subs: List[ClassInfo]):
+    """C03.j  one set of mode statistics per kernel: every per-mode statistic (an array the mode-statistics constructor
+    stores, or a property derived from one) that the acceptance correction reads is one the proposal reads too.  The
+    correction is the ratio of the proposal's own density at the two end points; evaluated with a floored / transformed
+    copy of a parameter the proposal draws with, it is the density of a different law and the target is not invariant."""
+    from .c14 import mode_class
+
+    mc = mode_class(ctx)
+    init = mc.methods["__init__"]
+    stats = {t.attr for st in walk_no_nested(init.node) if isinstance(st, (ast.Assign, ast.AnnAssign)) for t in (st.targets if isinstance(st, ast.Assign) else [st.target])
+             if isinstance(t, ast.Attribute) and isinstance(t.value, ast.Name) and t.value.id == "self"}
+    scalar_props = set()
+    for m in mc.methods.values():
+        if any(isinstance(d, ast.Name) and d.id == "property" for d in m.node.decorator_list):
+            rets = [r.value for r in walk_no_nested(m.node) if isinstance(r, ast.Return) and r.value is not None]
+            shape_only = rets and all(any(isinstance(x, ast.Attribute) and x.attr == "shape" for x in ast.walk(r)) or (isinstance(r, ast.Call) and isinstance(r.func, ast.Name) and r.func.id == "len") for r in rets)
+            (scalar_props if shape_only else stats).add(m.name)
+    # a property that merely hands out a stored statistic (possibly re-shaped / copied) is that statistic
+    same_as = {}
+    for m in mc.methods.values():
+        if m.name in stats and any(isinstance(d, ast.Name) and d.id == "property" for d in m.node.decorator_list):
+            rets = [r.value for r in walk_no_nested(m.node) if isinstance(r, ast.Return) and r.value is not None]
+            if len(rets) == 1:
+                core = rets[0]
+                while isinstance(core, ast.Call) and isinstance(core.func, ast.Attribute) and core.func.attr in ("copy", "view", "astype", "reshape") and not isinstance(core.func.value, ast.Name):
+                    core = core.func.value
+                if isinstance(core, ast.Call) and dotted(core.func) in ("np.asarray", "np.array", "numpy.asarray", "numpy.array") and core.args:
+                    core = core.args[0]
+                if isinstance(core, ast.Attribute) and isinstance(core.value, ast.Name) and core.value.id == "self":
+                    same_as[m.name] = core.attr
+    for st in walk_no_nested(init.node):
+        if isinstance(st, ast.Assign) and len(st.targets) == 1 and isinstance(st.targets[0], ast.Attribute) and isinstance(st.targets[0].value, ast.Name) and st.targets[0].value.id == "self" \
+                and isinstance(st.value, ast.Attribute) and isinstance(st.value.value, ast.Name) and st.value.value.id == "self" and st.value.attr in stats and st.targets[0].attr != st.value.attr:
+            same_as[st.targets[0].attr] = same_as.get(st.value.attr, st.value.attr)
+    n = 0
+    for c in subs:
+        prop = ctx.prog.mro_lookup(c, "_propose")
+        corr = ctx.prog.mro_lookup(c, "_compute_acceptance_factor")
+        if prop is None or corr is None or corr.cls is not c:
+            continue
+        alias = _mode_attr_sources(ctx, c)
+
+        def sources(m):
+            out = {}
+            for x in walk_no_nested(m.node):
+                if isinstance(x, ast.Attribute) and isinstance(x.ctx, ast.Load):
+                    d = dotted(x)
+                    if d in alias and alias[d] in stats:
+                        out.setdefault(same_as.get(alias[d], alias[d]), x)
+                    elif isinstance(x.value, ast.Attribute) and dotted(x.value) == "self.mode_stats" and x.attr in stats:
+                        out.setdefault(same_as.get(x.attr, x.attr), x)
+            return out
+
+        ps, cs = sources(prop), sources(corr)
+        if not cs:
+            continue  # a kernel without a mode-dependent correction (symmetric random walk)
+        n += 1
+        extra = sorted(set(cs) - set(ps))
+        R.check("C03.j", f"{c.name}: the correction reads only per-mode statistics that the proposal is drawn with", not extra, corr, cs[extra[0]] if extra else corr.node,
+                msg=f"{corr.short}: the correction reads `{extra[0] if extra else ''}` of the mode statistics, which the proposal ({prop.short}, reading {sorted(ps)}) does not use: the density ratio "
+                    f"in the acceptance probability is then not the ratio of the law the proposal was drawn from", key=f"one-parameter-set:{c.name}")
+    R.floor("C03.j", "kernels with a mode-dependent correction", n, 1)
+
+
 def run(ctx: Context, R: Reporter):
     base, subs = kernels(ctx)
     R.guard(rule_a, ctx, R, subs)
@@ -835,16 +899,27 @@ def run(ctx: Context, R: Reporter):
     R.guard(rule_g, ctx, R, base, subs)
     R.guard(rule_h, ctx, R, base, subs)
     R.guard(rule_i, ctx, R, base, subs)
+    R.guard(rule_j, ctx, R, base, subs)
 
 
 def variants():
-    from ..variants import Variant, alpha_rename, replace_expr, replace_stmt
+    from ..variants import Variant, alpha_rename, chain, insert_before_function, replace_expr, replace_stmt
 
     mc = "tempest/mcmc.py"
     T = "TPCNRunner"
     from ..variants import insert_after as _ia
 
     return [
+        Variant("j-correction-floors-dof-alone", "bad", chain(_ia("tempest/modes.py", "ModeStatistics.__init__", "self.means = np.asarray(means)", "self.safe_degrees_of_freedom = np.maximum(degrees_of_freedom, 1.0)"),
+                                                               replace_stmt("tempest/mcmc.py", "TPCNRunner._compute_acceptance_factor", "means_assigned = self.means[self.assignments]",
+                                                                            "means_assigned = self.means[self.assignments]\ndof_a = self.mode_stats.safe_degrees_of_freedom[self.assignments]"),
+                                                               replace_expr("tempest/mcmc.py", "TPCNRunner._compute_acceptance_factor", "np.log(1 + dot_prime / self.degrees_of_freedom[self.assignments])", "np.log(1 + dot_prime / dof_a)")), ["C03.j"], quick=True),
+        Variant("j-benign-correction-through-trivial-property", "benign", chain(replace_expr("tempest/mcmc.py", "TPCNRunner._compute_acceptance_factor", "np.log(1 + dot_prime / self.degrees_of_freedom[self.assignments])", "np.log(1 + dot_prime / self.mode_stats.dof[self.assignments])"),
+                                                                                 replace_expr("tempest/mcmc.py", "TPCNRunner._compute_acceptance_factor", "np.log(1 + dot_products / self.degrees_of_freedom[self.assignments])", "np.log(1 + dot_products / self.mode_stats.dof[self.assignments])"),
+                                                                                 _ia("tempest/modes.py", "ModeStatistics.__init__", "self.means = np.asarray(means)", "self.dof = self.degrees_of_freedom"))),
+        Variant("j-benign-correction-reads-mode-stats-directly", "benign", replace_expr("tempest/mcmc.py", "TPCNRunner._compute_acceptance_factor", "np.log(1 + dot_prime / self.degrees_of_freedom[self.assignments])",
+                                                                                         "np.log(1 + dot_prime / self.mode_stats.degrees_of_freedom[self.assignments])")),
+
         Variant("g-relabel-accepted-walkers", "bad", _ia(mc, "BaseMCMCRunner.run", "self.logl[mask_accept] = logl_prime[mask_accept]", "self.assignments[mask_accept] = np.argmin(np.linalg.norm(self.u[mask_accept][:, None, :] - self.mode_stats.means[None, :, :], axis=2), axis=1)"), ["C03.g"], quick=True),
         Variant("i-logl-aliases-callers-array", "bad", replace_stmt(mc, "BaseMCMCRunner.__init__", "self.logl = logl.copy()", "self.logl = np.asarray(logl, dtype=float)"), ["C03.i"], quick=True),
         Variant("i-benign-logl-np-array-copy", "benign", replace_stmt(mc, "BaseMCMCRunner.__init__", "self.logl = logl.copy()", "self.logl = np.array(logl, dtype=float)")),
